@@ -975,4 +975,40 @@ def pipe (i : PipeIn) : String :=
     (if i.mask then (if mb then ",_,mask" else ",_,_,mask") else "")
   s!"count=1/1/{if ms then 1 else 0}/{if mb then 1 else 0}/0 MultiHeadAttention@com.microsoft\{num_heads={i.heads}{sc}}({qn},{kn},{vn}{tail})->1"
 
+/-! ## `shape_optimization.ExtractDim` (runs in `_pre_optimize` inside `fuse_xformers` / `optimize_for_ort`) -/
+
+/-- Python `l[start:end]` (step 1) on a list of length `n`: the two clamped bounds (`PySlice_AdjustIndices`). -/
+def pyBound (n : Nat) (v : Int) : Nat :=
+  if v < 0 then (if v + n < 0 then 0 else (v + n).toNat) else (if v > n then n else v.toNat)
+
+def pySlice {α : Type} (l : List α) (s e : Int) : List α :=
+  (l.take (pyBound l.length e)).drop (pyBound l.length s)
+
+structure ExtractIn where
+  nSliceInputs : Nat          -- 3: Slice(shape, starts, ends); 4: + axes; 5: + steps
+  start : Int
+  stop : Int
+  startConst : Bool           -- starts is a one-element constant (ends always is, in the generated graphs)
+  allowzero : Option Int      -- attribute of the Reshape
+  perm : List Int             -- attribute of the Transpose
+  shapeStart : Option Int     -- attributes of the Shape node
+  shapeEnd : Option Int
+  dimsKnown : Bool            -- each of the four concatenated dims has the static shape [1]
+
+/-- `ExtractDim`: pattern + `check`.  The pattern's `op.Slice(final_shape, start, end)` has exactly three inputs:
+a Slice that spells out `axes` (and `steps`) does not match, so a non-unit step can never be taken for step 1. -/
+def extractOk (i : ExtractIn) : Bool :=
+  i.nSliceInputs == 3 && i.allowzero == some 1 && i.perm == [0, 2, 1, 3]
+    && i.dimsKnown && i.shapeEnd.isNone && (i.shapeStart.isNone || i.shapeStart == some 0) && i.startConst
+
+/-- what replaces the Slice: the dims of `Transpose(Reshape(x,[d0,d1,d2,d3]), perm=[0,2,1,3])`, Python-sliced -/
+def extractDims (i : ExtractIn) : List String := pySlice ["dim0", "dim2", "dim1", "dim3"] i.start i.stop
+
+def shapeopt (i : ExtractIn) : String :=
+  if !extractOk i then "count=0" else
+  match extractDims i with
+  | [] => "count=1 Constant()"
+  | [d] => s!"count=1 Identity({d})"
+  | ds => s!"count=1 Concat({",".intercalate ds})"
+
 end OV.C19
